@@ -318,22 +318,33 @@ def r3(repo, res):
 
 
 def r4(repo, res):
+    """estimate_cn folded whole: the model builder receives (gene depth, pseudogene depth) of exactly the copy-number regions."""
+    from checks._cn import REGIONS, fold_estimate_cn, sample_gene
+
     f = repo.func("cn::estimate_cn")
     res.analysed(f)
-    rc = [n for n in walk_local(f) if isinstance(n, ast.Assign) and isinstance(n.targets[0], ast.Name) and n.targets[0].id == "region_cov"]
-    if not rc:
-        res.err("C07.R4", "region_cov definition not found in estimate_cn")
-        return
+    prof = Obj(cn_solution=None, male=False)
     try:
-        cov = Obj(region_coverage=lambda g, r: (g + 1) * 10 + len(r))
-        two = Evaluator({"coverage": cov, "gene": Obj(regions=[{}, {}], unique_regions=["e1", "e22"])}).ev(rc[0].value)
-        one = Evaluator({"coverage": cov, "gene": Obj(regions=[{}], unique_regions=["e1"])}).ev(rc[0].value)
-    except (Unfoldable, Raised) as e:
-        res.err("C07.R4", f"region_cov outside folding language: {e}")
+        rows = {}
+        for parts in (2, 1):
+            gene = sample_gene(parts)
+            gene.regions = [dict({r: None for r in REGIONS}, extra=None)] * parts   # a region that is not a copy-number region
+            depth = {(gi, r): (gi + 1) * 1.0 + 0.1 * len(r) for gi in range(parts) for r in REGIONS + ["extra"]}
+            k, v, calls = fold_estimate_cn(repo, gene, prof, depth)
+            sc = [c for c in calls if c[0] == "solve_cn_model"]
+            rows[parts] = (k, sc[0][1] if sc else None)
+    except Unfoldable as e:
+        res.err("C07.R4", f"estimate_cn outside the folding language: {e}")
         return
-    ok = two == {"e1": (12, 22), "e22": (13, 23)} and one == {"e1": (12, 0.0)}
-    res.ob("C07.R4", f, rc[0], ok, expected="structure stage reads (gene depth, pseudogene depth) of exactly the copy-number regions; 0 without pseudogene",
-           found=f"{two} / {one}", key="consumer")
+    want2 = {r: (1.0 + 0.1 * len(r), 2.0 + 0.1 * len(r)) for r in REGIONS}
+    want1 = {r: (1.0 + 0.1 * len(r), 0.0) for r in REGIONS}
+
+    def table(a):
+        return next((x for x in (a or ()) if isinstance(x, dict) and set(x) == set(REGIONS) and all(isinstance(t, tuple) for t in x.values())), None)
+
+    ok = rows[2][0] == rows[1][0] == "return" and table(rows[2][1]) == want2 and table(rows[1][1]) == want1
+    res.ob("C07.R4", f, f, ok, expected="structure stage reads (gene depth, pseudogene depth) of exactly the copy-number regions; 0 without pseudogene",
+           found="ok" if ok else f"{table(rows[2][1])} / {table(rows[1][1])}", key="consumer")
 
 
 def run(repo, res):
